@@ -126,6 +126,12 @@ func (l *Lowerer) call(ce *ast.CallExpr) ([]*Term, []types.Type) {
 				}
 				return []*Term{And(Lt(IntLit(0), v), Lt(v, V(name, "Int")))}, []types.Type{types.Typ[types.Bool]}
 			}
+		case "sent":
+			if l.spec {
+				ch, cht := l.tr(ce.Args[0])
+				cnt := l.heapVar(chanSentVar(cht), "Int")
+				return []*Term{Select(cnt, ch)}, []types.Type{types.Typ[types.UntypedInt]}
+			}
 		case "lockheld":
 			if l.spec {
 				sel, ok := ast.Unparen(ce.Args[0]).(*ast.SelectorExpr)
@@ -281,7 +287,7 @@ func (l *Lowerer) call(ce *ast.CallExpr) ([]*Term, []types.Type) {
 
 // concreteTypeOf: replay search treats packetDecoder parameters as *realDecoder.
 func (l *Lowerer) concreteTypeOf(e ast.Expr) types.Type {
-	if !l.p.opts.concretePD || l.spec {
+	if l.spec {
 		return nil
 	}
 	id, ok := ast.Unparen(e).(*ast.Ident)
@@ -290,6 +296,15 @@ func (l *Lowerer) concreteTypeOf(e ast.Expr) types.Type {
 	}
 	v, ok := l.info().ObjectOf(id).(*types.Var)
 	if !ok || v.IsField() {
+		return nil
+	}
+	// an interface parameter of an inlined function whose argument had a concrete static type
+	for fr := l.fr; fr != nil; fr = fr.parent {
+		if t, ok := fr.concrete[v]; ok {
+			return t
+		}
+	}
+	if !l.p.opts.concretePD {
 		return nil
 	}
 	if namedOf(v.Type()) != "packetDecoder" {
@@ -1103,6 +1118,9 @@ func (l *Lowerer) callFunc1(callee *types.Func, recv *Term, recvTyp types.Type, 
 		if ct.Pure && fi.Body != nil && !ct.Trusted && ct.PureDef == nil && len(ct.Ensures) == 0 {
 			return l.inline(fi, recv, recvTyp, args, atys, ce, false)
 		}
+		if ct.InlineCalls && fi.Body != nil && l.canInline(fi) {
+			return l.inline(fi, recv, recvTyp, args, atys, ce, false)
+		}
 		if ct.Pure && fi.Iface != nil && len(ct.Ensures) == 0 {
 			// abstract pure method of an interface: its value is the abstract state
 			saved := l.spec
@@ -1797,6 +1815,16 @@ func (l *Lowerer) inline(fi *FuncInfo, recv *Term, recvTyp types.Type, args []*T
 						}
 					case i < len(args) && args[i].Sort == s:
 						l.assign(name, s, args[i])
+						if i < len(atys) && atys[i] != nil {
+							if _, pIface := obj.Type().Underlying().(*types.Interface); pIface {
+								if _, aIface := atys[i].Underlying().(*types.Interface); !aIface && namedOf(atys[i]) != "" {
+									if fr.concrete == nil {
+										fr.concrete = map[types.Object]types.Type{}
+									}
+									fr.concrete[obj] = atys[i]
+								}
+							}
+						}
 					default:
 						l.havoc(name, s)
 					}
@@ -1963,6 +1991,71 @@ func (l *Lowerer) externalCall(callee *types.Func, recv *Term, recvTyp types.Typ
 	case "(*sync.Mutex).Unlock", "(*sync.RWMutex).Unlock", "(*sync.RWMutex).RUnlock":
 		l.lockOp(recv, false, ce)
 		return nil
+	case "sort.Sort", "sort.Strings", "sort.Ints", "sort.Slice", "sort.SliceStable", "sort.Stable":
+		// T-stdlib: sorting permutes the elements of the slice in place. The argument is followed through
+		// conversions (int32Slice(x), sort.StringSlice(x), ...) to the slice variable that is sorted.
+		target := ce.Args[0]
+		for {
+			if c, ok := ast.Unparen(target).(*ast.CallExpr); ok && len(c.Args) == 1 {
+				if tv, ok := l.info().Types[c.Fun]; ok && tv.IsType() {
+					target = c.Args[0]
+					continue
+				}
+			}
+			break
+		}
+		lv := l.slicePlace(target)
+		if lv == nil {
+			break
+		}
+		// freeze the old value, store the permuted one, and state the facts over variables (clean triggers)
+		oldv := l.tmp(lv.whole.Sort)
+		l.assign(oldv, lv.whole.Sort, lv.whole)
+		w := V(oldv, lv.whole.Sort)
+		as := r.sArr(w).Sort
+		na := l.tmp(as)
+		l.havoc(na, as)
+		nat := V(na, as)
+		l.store(lv.pl, r.sMk(w.Sort, nat, r.sOff(w), r.sLen(w), r.sCap(w), r.sNil(w)))
+		newv := l.tmp(w.Sort)
+		l.assign(newv, w.Sort, l.load(lv.pl))
+		nw := V(newv, w.Sort)
+		l.quantN++
+		k := &Term{Op: "bound", Name: fmt.Sprintf("sk!%d", l.quantN), Sort: "Int"}
+		l.quantN++
+		j := &Term{Op: "bound", Name: fmt.Sprintf("sj!%d", l.quantN), Sort: "Int"}
+		inK := And(Le(IntLit(0), k), Lt(k, r.sLen(w)))
+		inJ := And(Le(IntLit(0), j), Lt(j, r.sLen(w)))
+		// every new element is an old element and vice versa
+		l.assume(&Term{Op: "forall", Sort: "Bool", Args: []*Term{k, Implies(inK,
+			&Term{Op: "exists", Sort: "Bool", Args: []*Term{j, And(inJ, Eq(r.sIndex(nw, k), r.sIndex(w, j)))}})}})
+		l.assume(&Term{Op: "forall", Sort: "Bool", Args: []*Term{j, Implies(inJ,
+			&Term{Op: "exists", Sort: "Bool", Args: []*Term{k, And(inK, Eq(r.sIndex(nw, k), r.sIndex(w, j)))}})}})
+		// ascending order for the integer/string orders of the standard helpers and the repository's int32Slice
+		asc := false
+		if full == "sort.Ints" || full == "sort.Strings" {
+			asc = true
+		}
+		if full == "sort.Sort" {
+			if c, ok := ast.Unparen(ce.Args[0]).(*ast.CallExpr); ok {
+				if id, ok := ast.Unparen(c.Fun).(*ast.Ident); ok && id.Name == "int32Slice" {
+					asc = true
+				}
+			}
+		}
+		if asc && r.sliceElem(w.Sort) == "Int" {
+			l.quantN++
+			a := &Term{Op: "bound", Name: fmt.Sprintf("sa!%d", l.quantN), Sort: "Int"}
+			l.quantN++
+			b2 := &Term{Op: "bound", Name: fmt.Sprintf("sb!%d", l.quantN), Sort: "Int"}
+			l.assume(&Term{Op: "forall", Sort: "Bool", Args: []*Term{a, b2, Implies(And(Le(IntLit(0), a), Lt(a, b2), Lt(b2, r.sLen(w))),
+				Le(r.sIndex(nw, a), r.sIndex(nw, b2)))}})
+		}
+		l.note("T-stdlib: sort.* permutes the slice in place (ascending for sort.Ints/Strings and int32Slice)")
+		if callsBack(full) {
+			l.havocEscaped()
+		}
+		return l.freshResults(resTypes)
 	case "(*sync.WaitGroup).Add", "(*sync.WaitGroup).Done":
 		if recv != nil {
 			cnt := l.heapVar("F.$wg.count", "Int")
@@ -2107,12 +2200,13 @@ func callsBack(full string) bool {
 	if strings.Contains(full, "github.com/rcrowley/go-metrics") {
 		return false // metrics registry: stores and reads metric objects only
 	}
-	for _, p := range []string{"sort.", "container/heap.", "(*sync.Once)", "io.", "encoding/", "(*github.com/eapache"} {
+	for _, p := range []string{"sort.", "container/heap.", "(*sync.Once)", "encoding/", "(*github.com/eapache"} {
 		if strings.HasPrefix(full, p) {
 			return true
 		}
 	}
-	if strings.HasPrefix(full, "fmt.") || strings.HasPrefix(full, "errors.") || isLogger(full) ||
+	if strings.HasPrefix(full, "fmt.") || strings.HasPrefix(full, "errors.") || isLogger(full) || strings.HasPrefix(full, "io.") ||
+		strings.HasPrefix(full, "(net.") || strings.HasPrefix(full, "net.") || strings.HasPrefix(full, "(*net.") ||
 		strings.HasPrefix(full, "(*sync.") || strings.HasPrefix(full, "time.") || strings.HasPrefix(full, "(time.") ||
 		strings.HasPrefix(full, "(*time.") || strings.HasPrefix(full, "strings.") || strings.HasPrefix(full, "strconv.") ||
 		strings.HasPrefix(full, "(github.com/rcrowley") || strings.HasPrefix(full, "math") || strings.HasPrefix(full, "hash") ||
